@@ -28,10 +28,23 @@ Join(s) == IF Len(s) = 1 THEN s[1] ELSE s[1] \o ":" \o Join(Tail(s))
 \* the ledger holds every address but one (so that an exact filter can also find nothing);
 \* the other ledger of the bucket holds them all
 Held(f) == Addresses \ {<<CHOOSE s \in Segs : TRUE, CHOOSE s \in Segs : TRUE>>}
+\* transactions of the ledger: for its k-th address x (in the order of HeldSeq), transaction 2k-2 moves x -> z and
+\* transaction 2k-1 moves z -> x, z being a one-segment account outside Segs (so a filter of one open segment selects
+\* every transaction). A transaction filter names the source, the destination, or either ("account").
+Z == <<"z">>
+HeldSeq(f) == SetToSeq(Held(f))
+TxsOf(f) == LET h == HeldSeq(f) IN
+            [i \in 1..(2 * Len(h)) |-> IF i % 2 = 1 THEN [id |-> i - 1, src |-> h[(i + 1) \div 2], dst |-> Z]
+                                                    ELSE [id |-> i - 1, src |-> Z, dst |-> h[i \div 2]]]
+Sel(f, pred(_)) == LET t == TxsOf(f) IN SetToSeq({t[i].id : i \in {j \in 1..Len(t) : pred(t[j])}})
 Case(f) == [filter |-> Join(f),
             own |-> SetToSeq({Join(a) : a \in Held(f)}),
             foreign |-> SetToSeq({Join(a) : a \in Addresses}),
-            expect |-> SetToSeq({Join(a) : a \in {x \in Held(f) : Matches(f, x)}})]
+            expect |-> SetToSeq({Join(a) : a \in {x \in Held(f) : Matches(f, x)}}),
+            txs |-> [i \in 1..Len(TxsOf(f)) |-> [id |-> TxsOf(f)[i].id, src |-> Join(TxsOf(f)[i].src), dst |-> Join(TxsOf(f)[i].dst)]],
+            bySource |-> Sel(f, LAMBDA t : Matches(f, t.src)),
+            byDestination |-> Sel(f, LAMBDA t : Matches(f, t.dst)),
+            byAccount |-> Sel(f, LAMBDA t : Matches(f, t.src) \/ Matches(f, t.dst))]
 
 \* sanity of the definition itself (checked by TLC before anything is emitted)
 ExactIsSingleton == \A f \in Filters : ~Open(f) => \A a \in Addresses : Matches(f, a) <=> a = f
